@@ -63,6 +63,45 @@ fn names_used_by(p: &Prog, mods: &BTreeSet<usize>) -> BTreeSet<String> {
     s
 }
 
+/// field, function, case and extern-value names of these modules (used as *type* names elsewhere)
+fn member_names_of(p: &Prog, mods: &BTreeSet<usize>) -> Vec<String> {
+    let mut s = BTreeSet::new();
+    for &i in mods {
+        let m = &p.mods[i];
+        for it in &m.items {
+            match it {
+                Item::Type(t) => {
+                    for f in &t.fields {
+                        if f.name != "_" {
+                            s.insert(f.name.clone());
+                        }
+                    }
+                    if let Some(v) = &t.vft {
+                        for f in &v.funcs {
+                            s.insert(f.name.clone());
+                        }
+                    }
+                }
+                Item::Enum(e) => {
+                    for v in &e.variants {
+                        s.insert(v.name.clone());
+                    }
+                }
+            }
+        }
+        for im in &m.impls {
+            for f in &im.funcs {
+                s.insert(f.name.clone());
+            }
+        }
+        for ev in &m.ext_vals {
+            s.insert(ev.name.clone());
+            s.insert(format!("get_{}", ev.name));
+        }
+    }
+    s.into_iter().collect()
+}
+
 fn simple_type(name: &str, k: u64, _w: u64) -> Item {
     Item::Type(TypeDef {
         vis: true,
@@ -99,7 +138,7 @@ impl Prop for Unrelated {
         "C19/unrelated".into()
     }
     fn rule(&self) -> String {
-        "accepted multi-module program P from the rich generator, an observed module M, and a change restricted to modules outside M's transitive `use` closure: add a fresh module (often defining short names M uses), add items (types, enums, extern types, vftable owners named like things M uses) to an unrelated module, remove an unrelated module nobody imports, remove the last item of an unrelated leaf module, reorder the modules. Oracle: when P and P+change are both accepted, <M>.rs is byte-identical. Pairs where P+change is rejected are discarded and counted. Non-trivial: M has a cross-module reference and the change touches a module that shares a short type name with something M's closure uses".into()
+        "accepted multi-module program P from the rich generator, an observed module M, and a change restricted to modules outside M's transitive `use` closure: add a fresh module (in a fresh directory, at the top, below M's own path or next to M; sorting before or after everything; often defining short names M uses or types named like M's members or built-ins; sometimes with extern values, rust backend text and impl blocks of its own), add items (types, enums, extern types, vftable owners named like things M uses) to an unrelated module, remove an unrelated module nobody imports, remove the last item of an unrelated leaf module, reorder the modules. Oracle: when P and P+change are both accepted, <M>.rs is byte-identical. Pairs where P+change is rejected are discarded and counted. Non-trivial: M has a cross-module reference and the change touches a module that shares a short type name with something M's closure uses".into()
     }
     fn gen(&self, t: &mut Tape) -> Case {
         let w = if t.chance(1, 2) { 8 } else { 4 };
@@ -111,7 +150,13 @@ impl Prop for Unrelated {
         let obs = if !with_uses.is_empty() && t.chance(3, 4) { with_uses[t.below(with_uses.len() as u64) as usize] } else { t.below(p1.mods.len() as u64) as usize };
         let cl = closure(&p1, obs);
         let used = names_used_by(&p1, &cl);
-        let used_vec: Vec<String> = used.iter().cloned().collect();
+        let mut used_vec: Vec<String> = used.iter().cloned().collect();
+        // now and then also names of M's members and built-ins, as type names elsewhere
+        let members = member_names_of(&p1, &cl);
+        if !members.is_empty() && t.chance(1, 3) {
+            used_vec.extend(members.into_iter().take(6));
+            used_vec.extend(["u32", "bool", "void"].iter().map(|s| s.to_string()));
+        }
         let mut p2 = p1.clone();
         let mut ops = vec![];
         let mut shares = false;
@@ -125,14 +170,41 @@ impl Prop for Unrelated {
                     // fresh module, possibly nested, possibly reusing short names
                     fresh_n += 1;
                     let mut path = vec![];
-                    if t.chance(1, 3) {
-                        path.push(format!("zdir{}", t.below(2)));
+                    let obs_path = p1.mods[obs].path.clone();
+                    // the file name sorts after everything (z…) or before everything (a…)
+                    let stem = format!("{}fresh{fresh_n}", if t.chance(1, 3) { "a" } else { "z" });
+                    match t.below(6) {
+                        0 | 1 => path.push(format!("zdir{}", t.below(2))),
+                        // below the observed module (its name as a directory)
+                        2 => path.extend(obs_path.iter().cloned()),
+                        // next to the observed module
+                        3 => path.extend(obs_path[..obs_path.len() - 1].iter().cloned()),
+                        _ => {}
                     }
-                    path.push(format!("zfresh{fresh_n}"));
+                    path.push(stem);
                     let mut m = Mod {
                         path,
                         ..Default::default()
                     };
+                    // extern values, backend text and impl blocks of its own
+                    if t.chance(1, 4) {
+                        m.ext_vals.push(ExtVal {
+                            sty: 0,
+                            vis: true,
+                            name: p1.mods[obs].ext_vals.first().map(|e| e.name.clone()).unwrap_or_else(|| "zval".into()),
+                            ty: Ty::n("u32"),
+                            addr: Some(Num::d(0x7100 + fresh_n as i128)),
+                            doc: vec![],
+                        });
+                    }
+                    if t.chance(1, 4) {
+                        m.backends.push(BackendBlk {
+                            name: "rust".into(),
+                            form: 0,
+                            prologue: Some(format!("pub const PV_UNRELATED_{fresh_n}: u32 = 1;")),
+                            epilogue: Some(format!("pub const PV_UNRELATED_E_{fresh_n}: u32 = 2;")),
+                        });
+                    }
                     let n = 1 + t.below(3);
                     for k in 0..n {
                         let name = if !used_vec.is_empty() && t.chance(2, 3) {
@@ -153,6 +225,29 @@ impl Prop for Unrelated {
                         } else {
                             m.items.push(simple_type(&name, t.below(30), w));
                         }
+                    }
+                    if t.chance(1, 4) {
+                        let first_type = m.types().next().map(|t| t.name.clone());
+                        if let Some(tn) = first_type {
+                            let fname = p1.mods[obs].impls.iter().flat_map(|im| im.funcs.iter()).map(|f| f.name.clone()).next().unwrap_or_else(|| "zfn".into());
+                            m.impls.push(Impl {
+                                ty: tn,
+                                funcs: vec![Func {
+                                    sty: 0,
+                                    vis: true,
+                                    name: fname,
+                                    doc: vec![],
+                                    args: vec![Arg::ConstSelf],
+                                    ret: None,
+                                    addr: Some(Num::d(0x7200 + fresh_n as i128)),
+                                    index: None,
+                                    cc: None,
+                                }],
+                            });
+                        }
+                    }
+                    if p2.mods.iter().any(|x| x.path == m.path) {
+                        continue;
                     }
                     ops.push(format!("add module {}", m.path_str()));
                     p2.mods.push(m);
